@@ -2,7 +2,7 @@
 # usage: vx/seedtest.sh <property> <patch.diff> [extra check args]  -- apply a seeded change to /repo, run the check, undo
 p="$1"; d="$2"; shift 2
 git -C /repo apply "$d" || { echo "patch does not apply"; exit 3; }
-python3 /verif/vx/check.py "$p" "$@"; rc=$?
+VERIF_EVIDENCE_DIR=/tmp/seed-evidence python3 /verif/vx/check.py "$p" "$@"; rc=$?
 git -C /repo checkout -- .
 echo "seedtest rc=$rc"
 exit $rc
